@@ -254,7 +254,7 @@ fn common_checks(out: &RunOutcome, max_requested: Option<usize>) -> Vec<(String,
     v
 }
 
-struct Scenario { name: &'static str, threads: usize, make: Box<dyn Fn() -> Instance + Sync> }
+struct Scenario { name: &'static str, threads: usize, make: Box<dyn Fn() -> Instance + Sync>, stress_only: bool }
 
 fn scenarios(rng: &mut Rng) -> Vec<Scenario> {
     let mut out = vec![];
@@ -268,7 +268,7 @@ fn scenarios(rng: &mut Rng) -> Vec<Scenario> {
                 let seq = Decryptor::new(kit.ctx.clone(), kit.sk.clone());
                 let expected: Arc<Vec<Vec<u64>>> = Arc::new(cts.iter().map(|c| plain_coeffs(&seq.decrypt_new(c), kit.n())).collect());
                 let k = kit.clone();
-                out.push(Scenario { name, threads: sizes.len(), make: Box::new(move || decryptor_instance(&k, &cts, &expected)) });
+                out.push(Scenario { name, threads: sizes.len(), make: Box::new(move || decryptor_instance(&k, &cts, &expected)), stress_only: false });
             }
             // shared key generator: relin keys (power 2), Galois keys (0 = no power), explicit powers
             let seqkg = KeyGenerator::from_sk(kit.ctx.clone(), kit.sk.clone());
@@ -280,7 +280,7 @@ fn scenarios(rng: &mut Rng) -> Vec<Scenario> {
             for (name, reqs) in [("keygen_relin_galois", vec![2usize, 0]), ("keygen_powers_2_3", vec![2, 3]), ("keygen_powers_3_4", vec![3, 4]), ("keygen_powers_4_2_3", vec![4, 2, 3]), ("keygen_relin_relin_3", vec![2, 3, 2])] {
                 let (k, r, p, q) = (kit.clone(), reference.clone(), prod.clone(), pp.clone());
                 let n = reqs.len();
-                out.push(Scenario { name, threads: n, make: Box::new(move || keygen_instance(&k, &reqs, &r, &p, &q)) });
+                out.push(Scenario { name, threads: n, make: Box::new(move || keygen_instance(&k, &reqs, &r, &p, &q)), stress_only: false });
             }
         }
         // shared evaluator/context: rotations on a cold permutation-table cache (NTT-form schemes use the cache: CKKS)
@@ -294,7 +294,20 @@ fn scenarios(rng: &mut Rng) -> Vec<Scenario> {
                 let expected: Arc<Vec<Ciphertext>> = Arc::new(elts.iter().map(|&g| seq_eval.apply_galois_new(&ct, g, &gk)).collect());
                 let (s, sk, c, g) = (spec.clone(), kit.sk.clone(), ct.clone(), gk.clone());
                 let n = elts.len();
-                out.push(Scenario { name, threads: n, make: Box::new(move || rotation_instance(&s, &sk, &elts, &c, &g, &expected)) });
+                out.push(Scenario { name, threads: n, make: Box::new(move || rotation_instance(&s, &sk, &elts, &c, &g, &expected)), stress_only: false });
+            }
+            // large degree, many threads, one cold table: the table-generation window grows with N (stress only)
+            let big = tiny_spec(SchemeType::CKKS, 2048);
+            if let Ok(bk) = Kit::new(&big) {
+                let enc = bk.ckks.as_ref().unwrap();
+                let vals: Vec<C64> = (0..16).map(|j| C64::new(j as f64, 1.0)).collect();
+                let ct = Arc::new(bk.enc.encrypt_new(&enc.encode_c64_array_new(&vals, None, 2f64.powi(20))));
+                let gk = Arc::new(bk.keygen.create_galois_keys_from_elts(&[3, 5], false));
+                let elts = vec![3usize, 3, 3, 3, 5, 3, 3, 3];
+                let seq_eval = Evaluator::new(big.context().unwrap());
+                let expected: Arc<Vec<Ciphertext>> = Arc::new(elts.iter().map(|&g| seq_eval.apply_galois_new(&ct, g, &gk)).collect());
+                let (s, sk, c, g) = (big.clone(), bk.sk.clone(), ct.clone(), gk.clone());
+                out.push(Scenario { name: "rotate_n2048_8_threads", threads: 8, make: Box::new(move || rotation_instance(&s, &sk, &elts, &c, &g, &expected)), stress_only: true });
             }
         }
     }
@@ -319,6 +332,7 @@ fn controlled(cfg: &Cfg, rep: &mut Report) {
     let merged = Mutex::new(Report::new());
     std::thread::scope(|scope| {
         for (si, sc) in scens.iter().enumerate() {
+            if sc.stress_only { continue; }
             let merged = &merged; let seed = seeds[si];
             scope.spawn(move || {
                 let mut local = Report::new();
@@ -388,6 +402,7 @@ pub fn stress(cfg: &Cfg, rep: &mut Report, iterations: usize) {
                 let mut rng = Rng::new(seed0);
                 let o = Obs { cfg, grp: "stress", case: si as u64 };
                 let mut hook_orders: HashSet<u64> = HashSet::new();
+                let per = if sc.stress_only { (per / 4).max(20) } else { per };
                 for _it in 0..per {
                     let inst = (sc.make)();
                     let order: Arc<Mutex<Vec<(usize, &'static str)>>> = Arc::new(Mutex::new(vec![]));
